@@ -33,8 +33,14 @@ func genC07(g *Gen, tier string) *Program {
 	// a fifth of the programs are about gauges (one updating task each): for them
 	// the order in which a closed scope and its replacement are delivered matters
 	wG, wU, own := 1, 1, false
-	if g.Bool(20) {
+	if g.Bool(25) {
 		wG, wU, own = 3, 7, true
+		if c.IntervalNs > 0 && c.Faults.SlowPct == 0 && g.Bool(60) {
+			// a slow reporter call is what keeps a flush in flight long enough for
+			// somebody else to get past it
+			c.Faults.SlowPct = pick(g, 15, 40)
+			c.Faults.SlowMenu = []int64{c.IntervalNs / 3, c.IntervalNs, 2*c.IntervalNs + 1}
+		}
 	}
 	genWorkload(g, p, wlOpts{
 		tasks: [2]int{1, 3}, ops: [2]int{4, maxOps}, scopes: pick(g, 1, 2, 3),
